@@ -28,12 +28,31 @@ MAPS = {
 }
 
 
-def _map_facts(chk, cls, mname):
+def _map_facts(chk, cls, mname, _depth=0):
     pm = chk.pm
     fn = cls.methods.get(mname)
     chk.require(fn is not None, f"{cls.name}.{mname} vanished")
     ff = FuncFacts.of(fn)
     dots = [c for c in ff.calls() if is_dot_call(c)]
+    if not dots and _depth == 0:
+        # the map is delegated to a sibling map of the same object with the roles of the two axes exchanged
+        # (patterns handed to the data map, modes standing in for samples): it then applies the sibling's matrix
+        # TRANSPOSED, with the sibling's conjugation - flipped only if both the argument and the result are conjugated
+        sib = [c for c in ff.calls() if isinstance(c.func, ast.Attribute) and is_self_attr(c.func.value) is False and isinstance(c.func.value, ast.Name) and c.func.value.id == "self"
+               and c.func.attr in MAPS and c.func.attr != mname]
+        if len(sib) == 1:
+            sfn, _, smat, sdim = _map_facts(chk, cls, sib[0].func.attr, _depth=1)
+            argc = 0
+            if sib[0].args:
+                argc = max((conj_parity(p) for p in ff.paths(sib[0].args[0], spine_only=True)), default=0)
+            resc = 0
+            for r in returns_of(fn):
+                for p in ff.paths(r.value, spine_only=True):
+                    if any((o.kind == "arg" and o.node is sib[0]) for o in p.ops) or (p.atom.kind == "call" and p.atom.node is sib[0]):
+                        after = p.ops[[i for i, o in enumerate(p.ops) if o.node is sib[0]][-1] + 1:] if any(o.node is sib[0] for o in p.ops) else p.ops
+                        resc = max(resc, sum(1 for o in after if o.kind == "method" and o.name in ("conj", "conjugate")) % 2)
+            flip = 1 if (argc and resc) else 0
+            return fn, sib[0], (smat[0], smat[1] ^ flip, 1 - smat[2]), "delegated"
     chk.require(len(dots) == 1, f"{cls.name}.{mname}: expected exactly one dot product, found {len(dots)}")
     c = dots[0]
     mat = None
@@ -111,6 +130,8 @@ def check(chk):
                       why="PCA scores are X V")
         for role, (fn, c, mat, dim_src) in facts.items():
             want = "feature" if role[1] == "fwd" else ("mode" if role[0] == "data" else "dummy_dim")
+            if dim_src == "delegated":
+                continue  # the contraction is the sibling map's, judged there
             chk.check(dim_src == want, "ADJOINT.dims", fn, c,
                       construct=f"{cls.name}.{fn.name}: contraction over {dim_src}",
                       why=f"a {role[1]} {role[0]} map must contract over the {want} dimension, found {dim_src}")
